@@ -26,7 +26,7 @@ type Ev struct {
 }
 
 type Case struct {
-	Config string `json:"config"` // mem-stream mem-paged sqlite sqlite-batched durable
+	Config string `json:"config"` // mem-stream mem-paged sqlite sqlite-batched sqlitemem sqlitemem-batched durable
 	Batch  int    `json:"batch,omitempty"` // replay batch size (paged paths; 0 = default) / sqlite stream batch
 	Chunk  int    `json:"chunk,omitempty"` // durable-streams chunk bytes
 	N      int    `json:"n"`
@@ -80,6 +80,19 @@ func Run(c *Case) *vkit.Outcome {
 		}
 		defer st.Close()
 		store, plan = st, p
+	case "sqlitemem", "sqlitemem-batched":
+		// a :memory: database (no driver fault plan: common faults only)
+		var so []sqlite.Option
+		if c.Config == "sqlitemem-batched" {
+			so = append(so, sqlite.WithStreamBatchSize(c.Batch))
+		}
+		st, err := sqlite.New(":memory:", so...)
+		if err != nil {
+			o.Failf("", "open sqlite :memory:: %v", err)
+			return o
+		}
+		defer st.Close()
+		store = st
 	case "durable":
 		srv = storekit.NewDSServer(c.Chunk)
 		st, err := srv.Open("replay")
@@ -373,7 +386,7 @@ func Run(c *Case) *vkit.Outcome {
 			b = 100
 		}
 		pages = (rest + b - 1) / b
-	case "sqlite-batched":
+	case "sqlite-batched", "sqlitemem-batched":
 		if c.Batch > 0 {
 			pages = (rest + c.Batch - 1) / c.Batch
 		}
